@@ -101,6 +101,52 @@ def _covers(ctx: Ctx, named: list[str], target: str) -> bool:
     return any(c.qual in named for c in mm.mro(t))
 
 
+def _check_coalesce_everywhere(ctx: Ctx, co: FuncInfo) -> None:
+    """Soft line breaks sit between the text nodes of *every* element with inline children - paragraphs and headings, and
+    also emphasis, strong, links, strikethrough inside them. The per-node rewriters (ellipses: rewrite_text_content) see one
+    text node at a time; a template tag that the author wrapped over a soft break inside `*...*` is protected only if the
+    two halves were merged. So the coalescing visitor may not restrict itself to a subset of the element classes that the
+    tree walk reaches and that carry inline children."""
+    repo, prog = ctx.repo, ctx.prog
+    rm = get_model(ctx)
+    mm = rm.mm
+    cont, _cd = _const_tuple(ctx, "flowmark.transforms.doc_transforms", "ContainerElement")
+    bearing = []
+    for q, mc in mm.classes.items():
+        pc = mm.class_attr(mc, "parse_children")
+        inline_children = mm.is_inline(mc) and isinstance(pc, ast.Constant) and pc.value is True
+        if (inline_children or "inline_body" in mm.all_attrs(mc)) and _covers(ctx, cont, q):
+            bearing.append(q)
+    ctx.note("elements_with_inline_children_reached_by_the_tree_walk", sorted(bearing))
+    ctx.require("R-REWRITE-coalesce", "element classes with inline children reached by transform_tree", len(bearing), 4)
+    from .. import anchors
+
+    # the visitor: nested in the entry point, or any function it calls / hands to the tree walk
+    visitors = [f for f in repo.functions.values() if f.parent is co and not isinstance(f.node, ast.Lambda)]
+    visitors += [f for f in anchors._callees(ctx, co, 2) if f not in visitors and f.name != "transform_tree"] + [co]
+    n_st = 0
+    for v in visitors:
+        if not v.params:
+            continue
+        flow = prog.flow(v)
+        for n in flow.cfg.nodes:
+            if n.kind != "stmt" or not isinstance(n.ast, ast.Assign):
+                continue
+            tg = n.ast.targets[0]
+            if isinstance(tg, ast.Subscript) and isinstance(tg.value, ast.Attribute):
+                tg = tg.value
+            if not (isinstance(tg, ast.Attribute) and tg.attr == "children" and isinstance(tg.value, ast.Name) and tg.value.id in v.params):
+                continue
+            n_st += 1
+            obj = tg.value.id
+            restrict = [cls for o, cls, lab in _isinstance_tests(ctx, v, n) if o == obj and lab == "T"]
+            missing = sorted({q for cls in restrict for q in bearing if not _covers(ctx, cls, q)})
+            ctx.ob("R-REWRITE-coalesce", f"{co.qual} :: every element with inline children is coalesced", not missing,
+                   "text nodes separated by a soft line break must be merged wherever they occur, or a rewriter sees half a template tag "
+                   f"(`*{{% a ⏎ ... b %}}*`) and edits inside it; the visitor skips {', '.join(m.split('.')[-1] for m in missing) or 'nothing'}", where(v, n))
+    ctx.require("R-REWRITE-coalesce", "store of the merged children in the coalescing visitor", n_st, 1)
+
+
 def check_rewrite_scope(ctx: Ctx) -> None:
     repo, prog = ctx.repo, ctx.prog
     # (a) every text store to .children in the transforms package is guarded by an isinstance RawText test on the same object
@@ -306,6 +352,8 @@ def check_coalesce_and_tags(ctx: Ctx, which: set[str] | None = None) -> None:
                         ok = ok and isinstance(v, ast.Constant) and v.value is True
                 ctx.ob("R-REWRITE-coalesce", f"{q} :: coalesces before rewriting", ok,
                        f"coalescing is optional here (parameter `{p}`): the formatter's call site must enable it", where(f, cos[0]))
+    if "coalesce" in want:
+        _check_coalesce_everywhere(ctx, co)
     if "tags" in want:
         # every function handed to a rewrite entry point from fill_markdown uses TEMPLATE_TAG_PATTERN
         n_rw = 0
